@@ -41,93 +41,119 @@ variable (lm : Char → Bool)
 def isAlpha (c : Char) : Bool := lm c || c = '_'
 def isAlphaNum (c : Char) : Bool := isAlpha lm c || isDigit c
 
-/-- result of scanning one lexeme (or one piece of trivia) -/
+/-- result of scanning one lexeme (or one piece of trivia); `used` is the text consumed (ghost:
+    the Go scanner only advances `current`) -/
 structure Step where
   tok : Option Token
   diag : Option Diag
+  used : List Char
   rest : List Char
   line : Nat
   deriving Repr
 
-def countNl (s : List Char) : Nat := (s.filter (· = '\n')).length
+def isNl (c : Char) : Bool := c == '\n'
+def notNl (c : Char) : Bool := !(c == '\n')
+def notQuote (c : Char) : Bool := !(c == '"')
 
-/-- body of `multilineComment`: returns the rest after `*/` (or `none` when unterminated) and the line -/
-def blockComment : List Char → Nat → Option (List Char) × Nat
-  | [], line => (none, line)
-  | c :: r, line =>
-    if c = '\n' then blockComment r (line + 1)
-    else if c = '*' then
+def countNl (s : List Char) : Nat := (s.filter isNl).length
+
+/-- body of `multilineComment`: the text consumed up to and including the closing `*/` (all of it when
+    unterminated) and whether it was terminated -/
+def blockComment : List Char → List Char × Option (List Char)
+  | [] => ([], none)
+  | c :: r =>
+    if c = '*' then
       match r with
-      | d :: r' => if d = '/' then (some r', line) else blockComment r line
-      | [] => blockComment r line
-    else blockComment r line
+      | d :: r' =>
+        if d = '/' then ([c, d], some r')
+        else let (u, k) := blockComment r; (c :: u, k)
+      | [] => ([c], none)
+    else let (u, k) := blockComment r; (c :: u, k)
 
 def unexpectedChar : List Char := "Unexpected character.".toList
 def unterminatedString : List Char := "Unterminated string.".toList
 def unterminatedComment : List Char := "Unterminated multiline comment".toList
 def invalidNumber : List Char := "Invalid number format".toList
 
+def plainTok (tt : TT) (lexeme : List Char) (rest : List Char) (line : Nat) : Step :=
+  ⟨some ⟨tt, lexeme, .none, line⟩, none, lexeme, rest, line⟩
+
+/-- one- or two-character operator: `c` then the alternatives for the second character -/
+def scanTwo (c : Char) (alts : List (Char × TT)) (dflt : TT) (r : List Char) (line : Nat) : Step :=
+  match r with
+  | d :: r' =>
+    (match alts.lookup d with
+     | some tt => plainTok tt [c, d] r' line
+     | none => plainTok dflt [c] r line)
+  | [] => plainTok dflt [c] r line
+
+/-- after a `/`: line comment, block comment, or the SLASH token -/
+def scanSlash (r : List Char) (line : Nat) : Step :=
+  match r with
+  | d :: r' =>
+    if d = '/' then
+      -- line comment: up to, not including, the newline
+      ⟨none, none, '/' :: '/' :: r'.takeWhile notNl, r'.dropWhile notNl, line⟩
+    else if d = '*' then
+      (match blockComment r' with
+       | (u, some rest) => ⟨none, none, '/' :: '*' :: u, rest, line + countNl u⟩
+       | (u, none) => ⟨none, some (.static (line + countNl u) [] unterminatedComment), '/' :: '*' :: u, [], line + countNl u⟩)
+    else plainTok .SLASH ['/'] r line
+  | [] => plainTok .SLASH ['/'] r line
+
+/-- string literal after the opening quote; `none` = the slice `source[start+1:current-1]` would panic -/
+def scanString (r : List Char) (line : Nat) : Option Step :=
+  let body := r.takeWhile notQuote
+  let rest := r.dropWhile notQuote
+  let line' := line + countNl body
+  match rest with
+  | [] => some ⟨none, some (.static line' [] unterminatedString), '"' :: body, [], line'⟩
+  | q :: rest' =>
+    let lexeme := '"' :: body ++ [q]
+    if lexeme.length < 2 then none
+    -- value := source[start+1 : current-1] = the text between the quotes
+    else some ⟨some ⟨.STRING, lexeme, .str body, line'⟩, none, lexeme, rest', line'⟩
+
+/-- optional fraction: a point is consumed only if a digit follows -/
+def numFrac (r1 : List Char) : List Char × List Char :=
+  match r1 with
+  | p :: d :: r' =>
+    if p = '.' && isDigit d then
+      ('.' :: d :: r'.takeWhile isDigit, r'.dropWhile isDigit)
+    else ([], r1)
+  | _ => ([], r1)
+
+/-- number literal starting with the digit `c` -/
+def scanNumber (c : Char) (r : List Char) (line : Nat) : Step :=
+  let ds := r.takeWhile isDigit
+  let fr := numFrac (r.dropWhile isDigit)
+  let lexeme := c :: ds ++ fr.1
+  match F64.parseFloat (translit lexeme) with
+  | .ok x => ⟨some ⟨.NUMBER, lexeme, .num x, line⟩, none, lexeme, fr.2, line⟩
+  | _ => ⟨none, some (.static line [] invalidNumber), lexeme, fr.2, line⟩
+
+/-- identifier or keyword starting with `c` -/
+def scanWord (c : Char) (r : List Char) (line : Nat) : Step :=
+  let word := c :: r.takeWhile (isAlphaNum lm)
+  plainTok ((Expect.keywords.lookup word).getD .IDENTIFIER) word (r.dropWhile (isAlphaNum lm)) line
+
 /-- `scanToken` after `s.start = s.current`; `none` = the Go code would panic -/
 def scanToken : List Char → Nat → Option Step
   | [], _ => none
   | c :: r, line =>
     match Expect.singleOps.lookup c with
-    | some tt => some ⟨some ⟨tt, [c], .none, line⟩, none, r, line⟩
+    | some tt => some (plainTok tt [c] r line)
     | none =>
     match Expect.twoOps.lookup c with
-    | some (alts, dflt) =>
-      (match r with
-       | d :: r' =>
-         (match alts.lookup d with
-          | some tt => some ⟨some ⟨tt, [c, d], .none, line⟩, none, r', line⟩
-          | none => some ⟨some ⟨dflt, [c], .none, line⟩, none, r, line⟩)
-       | [] => some ⟨some ⟨dflt, [c], .none, line⟩, none, r, line⟩)
+    | some (alts, dflt) => some (scanTwo c alts dflt r line)
     | none =>
-    if c = '/' then
-      (match r with
-       | d :: r' =>
-         if d = '/' then
-           -- line comment: up to, not including, the newline
-           some ⟨none, none, r'.dropWhile (· ≠ '\n'), line⟩
-         else if d = '*' then
-           (match blockComment r' line with
-            | (some rest, line') => some ⟨none, none, rest, line'⟩
-            | (none, line') => some ⟨none, some (.static line' [] unterminatedComment), [], line'⟩)
-         else some ⟨some ⟨.SLASH, [c], .none, line⟩, none, r, line⟩
-       | [] => some ⟨some ⟨.SLASH, [c], .none, line⟩, none, r, line⟩)
-    else if Expect.blanks.contains c then some ⟨none, none, r, line⟩
-    else if c = '\n' then some ⟨none, none, r, line + 1⟩
-    else if c = '"' then
-      let body := r.takeWhile (· ≠ '"')
-      let rest := r.dropWhile (· ≠ '"')
-      let line' := line + countNl body
-      (match rest with
-       | [] => some ⟨none, some (.static line' [] unterminatedString), [], line'⟩
-       | q :: rest' =>
-         let lexeme := c :: body ++ [q]
-         -- value := source[start+1 : current-1]
-         if lexeme.length < 2 then none
-         else some ⟨some ⟨.STRING, lexeme, .str ((lexeme.drop 1).dropLast), line'⟩, none, rest', line'⟩)
-    else if isDigit c then
-      let ds := r.takeWhile isDigit
-      let r1 := r.dropWhile isDigit
-      let (frac, r2) : List Char × List Char :=
-        match r1 with
-        | p :: d :: r' =>
-          if p = '.' && isDigit d then
-            ('.' :: d :: r'.takeWhile isDigit, r'.dropWhile isDigit)
-          else ([], r1)
-        | _ => ([], r1)
-      let lexeme := c :: ds ++ frac
-      (match F64.parseFloat (translit lexeme) with
-       | .ok x => some ⟨some ⟨.NUMBER, lexeme, .num x, line⟩, none, r2, line⟩
-       | _ => some ⟨none, some (.static line [] invalidNumber), r2, line⟩)
-    else if isAlpha lm c then
-      let word := c :: r.takeWhile (isAlphaNum lm)
-      let rest := r.dropWhile (isAlphaNum lm)
-      let tt := (Expect.keywords.lookup word).getD .IDENTIFIER
-      some ⟨some ⟨tt, word, .none, line⟩, none, rest, line⟩
-    else some ⟨none, some (.static line [] unexpectedChar), r, line⟩
+    if c = '/' then some (scanSlash r line)
+    else if Expect.blanks.contains c then some ⟨none, none, [c], r, line⟩
+    else if c = '\n' then some ⟨none, none, [c], r, line + 1⟩
+    else if c = '"' then scanString r line
+    else if isDigit c then some (scanNumber c r line)
+    else if isAlpha lm c then some (scanWord lm c r line)
+    else some ⟨none, some (.static line [] unexpectedChar), [c], r, line⟩
 
 /-- `ScanTokens`: fuel `src.length + 1` always suffices (`scan_fuel_ok`) -/
 def scanLoop : Nat → List Char → Nat → Option (List Token × List Diag)
